@@ -4,8 +4,9 @@ Engine E2, symbolic-vs-concrete differential.  Two program families:
 
  (i)  irgen programs: straight-line and branching block sequences over the fake 32-bit architecture
       (<= 3 blocks, <= 2 AssignBlocks per block; registers, parallel swap, memory through the two symbolic
-      bases `sp` and `a`, 8-bit partial store; a self loop / every 2-block loop shape executed for a bounded number of blocks);
- (ii) the IR of every instruction of the curated vectors (test/arch/<arch>/arch.py, harvested with ast by mc/insngen),
+      bases `sp` and `a`, 8-bit partial store, read-modify-write of a cell by a non byte-aligned shift / bit field; a self loop / every 2-block loop shape executed for a bounded number of blocks);
+ (ii) the IR of every instruction of the curated vectors (test/arch/<arch>/arch.py, harvested with ast by mc/insngen)
+      plus a few supplementary x86 read-modify-write forms (EXTRA_VECTORS: shifts of a memory operand by an immediate),
       lifted one instruction at a time with Machine(target).lifter at offset 0x1000.
 
 For a program and a concrete initial state the reference interpreter runs first (mc/irinterp for family (i); the same
@@ -54,31 +55,42 @@ ASSUMPTIONS = ["memory addresses built on different symbolic bases do not alias 
 
 ALPHA_FULL = ["a=b", "b=a", "a=a+1", "a=0", "b=1", "c=a+b", "swap", "a=b,c=a", "r=a", "zf=a==b",
               "a=@[sp+4]", "b=@[sp+4]", "b=@[sp+8]", "@[sp+4]=a", "@[sp+4]=b", "@[sp+8]=1", "@[a]=b", "b=@[a]",
-              "@8[sp+5]=a", "sp=sp-4", "sp=sp+4", "a=a<<1", "a=-a"]
-ALPHA_12 = ["a=b", "a=a+1", "swap", "a=b,c=a", "zf=a==b", "a=@[sp+4]", "@[sp+4]=a", "@[sp+8]=1", "@[a]=b", "b=@[a]",
-            "@8[sp+5]=a", "sp=sp-4"]
-ALPHA_8 = ["a=a+1", "swap", "zf=a==b", "a=@[sp+4]", "@[sp+4]=b", "@[a]=b", "@8[sp+5]=a", "sp=sp-4"]
+              "@8[sp+5]=a", "sp=sp-4", "sp=sp+4", "a=a<<1", "a=-a",
+              # read-modify-write whose stored bytes are non byte-aligned slices of the cell itself (shift, bit field)
+              "@[sp+4]=@[sp+4]>>4", "@[sp+4]=@[sp+4]<<4", "@8[sp+5]=@[sp+4][12:20]", "@[a]=@[a]>>1"]
+ALPHA_14 = ["a=b", "a=a+1", "swap", "a=b,c=a", "zf=a==b", "a=@[sp+4]", "@[sp+4]=a", "@[sp+8]=1", "@[a]=b", "b=@[a]",
+            "@8[sp+5]=a", "sp=sp-4", "@[sp+4]=@[sp+4]>>4", "@8[sp+5]=@[sp+4][12:20]"]
+ALPHA_9 = ["a=a+1", "swap", "zf=a==b", "a=@[sp+4]", "@[sp+4]=b", "@[a]=b", "@8[sp+5]=a", "sp=sp-4", "@[sp+4]=@[sp+4]>>4"]
 ALPHA_5 = ["swap", "@[sp+4]=a", "b=@[a]", "sp=sp-4", "a=a+1"]
+ALPHA_5R = ["swap", "@[sp+4]=a", "b=@[a]", "sp=sp-4", "@[sp+4]=@[sp+4]>>4"]
 ALPHA_4 = ["swap", "@[sp+4]=a", "b=@[sp+4]", "sp=sp-4"]
 CONDS = ["zf", "@[sp+4]", "a==b"]
 
 # (blocks, max AssignBlocks per block, alphabet, shapes: "dag" loop-free only / "all", conditions, fuel in blocks)
 PLAN_IRGEN = {
     "quick": [(1, 2, ALPHA_FULL, "all", CONDS[:1], 2),
-              (2, 1, ALPHA_12, "dag", CONDS[:1], 3),
+              (2, 1, ALPHA_14, "dag", CONDS[:1], 3),
               (2, 2, ALPHA_5, "dag", CONDS[:1], 3),
-              (3, 1, ALPHA_5, "dag", CONDS, 3)],
+              (3, 1, ALPHA_5R, "dag", CONDS, 3)],
     "thorough": [(1, 2, ALPHA_FULL, "all", CONDS[:1], 3),
-                 (1, 3, ALPHA_8, "all", CONDS[:1], 2),
+                 (1, 3, ALPHA_9, "all", CONDS[:1], 2),
                  (2, 1, ALPHA_FULL, "dag", CONDS[:1], 3),
                  (2, 1, ALPHA_5, "all", CONDS[:2], 4),
-                 (2, 2, ALPHA_8, "dag", CONDS[:1], 3),
-                 (3, 1, ALPHA_8, "dag", CONDS, 3),
+                 (2, 2, ALPHA_9, "dag", CONDS[:1], 3),
+                 (3, 1, ALPHA_9, "dag", CONDS, 3),
                  (3, 2, ALPHA_4, "dag", CONDS[:1], 3)],
 }
 PLAN_LIFTED = {
     "quick": ["x86_16", "x86_32", "x86_64", "arml", "armtl", "aarch64l", "mips32l", "ppc32b", "msp430", "mepl"],
     "thorough": None,       # every insngen.LIFT_TARGETS
+}
+# read-modify-write instructions on a memory operand with an immediate count (the stored bytes are non byte-aligned slices
+# of the cell itself); the curated lists only have these with a register operand or a count of 1 / CL
+EXTRA_VECTORS = {
+    "x86_16": ["c12c04", "c12404", "c10c04"],                       # SHR / SHL / ROR WORD PTR [SI], 4
+    "x86_32": ["c12e04", "c12604", "c13e04", "c10e04", "0fac0604", "0fa40604", "c02e03"],
+    #          SHR / SHL / SAR / ROR DWORD PTR [ESI], 4; SHRD / SHLD DWORD PTR [ESI], EAX, 4; SHR BYTE PTR [ESI], 3
+    "x86_64": ["c12e04", "48c12e04", "48c1260c", "480fac0604"],      # SHR DWORD/QWORD PTR [RSI], 4; SHL QWORD, 12; SHRD QWORD
 }
 LIFT_ADDR = 0x1000
 LIFT_FUEL = 4
@@ -502,11 +514,44 @@ def check_irgen(n, shape_idx, body_idx, cond_idx, alphabet, conds, fuel, stats):
     desc = irgen.describe(shape, body_idx, cond_idx, alphabet, conds)
     case = {"kind": "irgen", "n": n, "shape": shape_idx, "bodies": body_idx, "conds": cond_idx, "alphabet": alphabet,
             "condnames": conds, "fuel": fuel}
-    used = sorted(set(alphabet[k] for b in body_idx for k in b))
     vs = []
     for kind, text in compare(g.ircfg, g.head, g.lifter, g.arch.IRDst, fuel, conc_irinterp, interp, desc, stats, 32):
-        vs.append(violation("irgen:%s:%s" % (kind, "+".join(used)), text, case))
+        vs.append(violation("irgen:%s:%s" % (kind, " ; ".join(culprit(kind, [alphabet[k] for b in body_idx for k in b]))), text, case))
     return vs
+
+
+_culprit = {}
+
+
+def straight_line_kinds(entries):
+    """Violation kinds of the one-block program made of `entries` (cached)."""
+    key = tuple(entries)
+    if key not in _culprit:
+        g = irgen.build(irgen.shapes(1)[0], (tuple(range(len(entries))),), (0,), list(entries), CONDS[:1], end_const=True)
+        interp = irinterp.Interp(g.loc_db)
+        _culprit[key] = set(k for k, _ in compare(g.ircfg, g.head, g.lifter, g.arch.IRDst, 1, conc_irinterp, interp, "", {}, 32))
+    return _culprit[key]
+
+
+def culprit(kind, entries):
+    """Signature skeleton of an irgen violation: the smallest sequence of the program's alphabet entries (one entry, one
+    entry twice, else an ordered pair) that shows the same kind of difference as a straight-line program on its own; otherwise the
+    sorted set of all entries of the program.  One defect then has one signature instead of one per enclosing program."""
+    distinct = []
+    for e in entries:
+        if e not in distinct:
+            distinct.append(e)
+    for e in distinct:
+        if kind in straight_line_kinds([e]):
+            return [e]
+    for e in distinct:                      # an entry executed twice (loops)
+        if kind in straight_line_kinds([e, e]):
+            return [e, e]
+    for e1 in distinct:                     # ordered pairs, both orders (a loop runs the later entry before the earlier one)
+        for e2 in distinct:
+            if e1 != e2 and kind in straight_line_kinds([e1, e2]):
+                return [e1, e2]
+    return sorted(distinct)
 
 
 def irgen_cases(entry):
@@ -614,10 +659,18 @@ def check_lifted(name, b, stats):
     return vs
 
 
+def vectors(name):
+    """The curated vectors of the target followed by this module's supplementary ones (those not already curated)."""
+    from mc import insngen as g
+    cur = list(g.curated(name))
+    have = set(cur)
+    return cur + [b for b in (bytes.fromhex(h) for h in EXTRA_VECTORS.get(name, [])) if b not in have]
+
+
 def _shard_lifted(args):
     from mc import insngen as g
     name, part, nparts = args
-    cur = g.curated(name)
+    cur = vectors(name)
     idxs = list(range(len(cur)))[part::nparts]
     stats = {"vectors_of_target": len(cur) if part == 0 else 0}
     best = {}
@@ -713,7 +766,8 @@ def run(ctx):
         "exhaustive": True,
         "bounds": {"irgen_plan(blocks,max_assignblocks,alphabet,shapes,conditions,fuel)": [list(e) for e in PLAN_IRGEN[tier]],
                    "lifted_targets": targets,
-                   "lifted_vectors": "every curated vector of every listed target",
+                   "lifted_vectors": "every curated vector of every listed target + supplementary_vectors",
+                   "supplementary_vectors": EXTRA_VECTORS,
                    "vectors_selected_of_curated": dict((f[7:], [st.get("vectors", 0), st.get("vectors_of_target", 0)])
                                                        for f, st in fam.items() if f.startswith("lifted:")),
                    "lift_address": LIFT_ADDR, "lift_fuel_blocks": LIFT_FUEL,
